@@ -39,6 +39,11 @@ PROP = {
             "before its select while a second Close / Stop / cancel / a new emission runs; subscribers that hand over 1-2 more messages "
             "inside their Close (deterministic D5 reproduction) or when their context ends; handler durations 0, < CloseTimeout (gate "
             "released when Close signalled), > CloseTimeout (gate released after every Close returned) with 1..8 concurrent callers; "
+            "Close before Run / from a plugin during Run's start-up / racing the Run call, with a message ready at Subscribe time and one "
+            "handed over inside the subscriber's Close (such a Close answers the timeout error on the unchanged router - no promise; after a "
+            "nil no invocation may start); lock order: Run's RunHandlers or a later RunHandlers call held inside a slow (gated) Subscribe or "
+            "at its own log line right after taking handlersLock while 2-3 Close callers arrive - every Close/RunHandlers/Run must return "
+            "(bounded controller calls; 8 s bound); "
             "seeded random programs (1-3 handlers, outcomes ok/out/err/pubfail/panic, yields). Every trace goes through the C06 monitor "
             "(clauses of the statement); traces marked for conformance must be traces of the Lean model RouterLife (subset construction). "
             "Non-trivial = a trace with at least one emitted message and one Close call.",
